@@ -126,14 +126,32 @@ pub fn case(ctx: &mut Ctx, phases: &str) {
         for phase in ph.split('|') {
             let (logger, progs) = phase.split_once('@').unwrap();
             let progs: Vec<String> = progs.split('/').map(|s| s.to_string()).collect();
-            let (sender, receiver) = sync_channel::<LogEvent>(100_000);
+            // S: a live logger whose queue holds 2 events and whose consumer starts late (callers must wait, not lose events)
+            let (sender, receiver) = sync_channel::<LogEvent>(if logger == "S" { 2 } else { 100_000 });
             let guard_opt = if logger == "N" { None } else { Some(set_global_logger(sender.clone()).expect("set logger")) };
-            let receiver = if logger == "D" { drop(receiver); None } else { Some(receiver) };
+            let mut consumer = None;
+            let receiver = if logger == "D" {
+                drop(receiver);
+                None
+            } else if logger == "S" {
+                consumer = Some(std::thread::spawn(move || {
+                    std::thread::sleep(std::time::Duration::from_millis(15));
+                    let mut evs = Vec::new();
+                    while let Ok(e) = receiver.recv_timeout(std::time::Duration::from_secs(5)) { evs.push(canon(&e)); }
+                    evs
+                }));
+                None
+            } else {
+                Some(receiver)
+            };
             let handles: Vec<_> = progs.iter().cloned().map(|p| std::thread::spawn(move || { let r = run_program(&p); clear_thread_local_log_tags(); r })).collect();
             let results: Vec<String> = handles.into_iter().map(|h| h.join().unwrap().join(",")).collect();
             drop(guard_opt);
             drop(sender);
-            let events: Vec<String> = receiver.map_or(Vec::new(), |r| r.try_iter().map(|e| canon(&e)).collect());
+            let events: Vec<String> = match consumer {
+                Some(c) => c.join().unwrap(),
+                None => receiver.map_or(Vec::new(), |r| r.try_iter().map(|e| canon(&e)).collect()),
+            };
             out.push(format!("{}#{}", results.join("/"), events.join(";")));
         }
         out.join("|")
@@ -151,12 +169,16 @@ pub fn run(ctx: &mut Ctx) {
         let nphases = rng.range(1, 3);
         let mut phases = Vec::new();
         for _ in 0..nphases {
-            let logger = match rng.below(6) { 0 => "D", 1 => "N", _ => "A" };
+            let logger = match rng.below(8) { 0 => "D", 1 => "N", 2 => "S", _ => "A" };
             let nthreads = rng.range(1, 8);
             let mut progs = Vec::new();
             for t in 0..nthreads {
                 let len = rng.range(1, 8);
                 let mut ops = Vec::new();
+                // now and then a thread carries many tags of its own (sorting 20+ tags must still be stable)
+                if rng.chance(1, 10) {
+                    for k in 0..rng.range(10, 30) { ops.push(format!("a{}={}", h(*rng.pick(&names)), h(&format!("T{t}{k}")))); }
+                }
                 for k in 0..len {
                     ops.push(match rng.below(10) {
                         0 | 1 => format!("a{}={}", h(*rng.pick(&names)), h(&format!("v{t}{k}"))),
@@ -168,7 +190,7 @@ pub fn run(ctx: &mut Ctx) {
                             format!("w{kind}:{}:{}:{}:{code}:{}:{}:{}", *rng.pick(&["GET", "POST"]), h(&format!("/t{t}/{k}")), if rng.chance(1, 3) { "P".to_string() } else { h("body") }, rng.below(4), etags.join("+"), if rng.chance(1, 2) { h("oops") } else { String::new() })
                         }
                         _ => {
-                            let ntags = rng.below(7);
+                            let ntags = if rng.chance(1, 8) { rng.range(15, 45) } else { rng.below(7) };
                             let tags: Vec<String> = (0..ntags).map(|j| if rng.chance(1, 4) { format!("{}=#{}", h(*rng.pick(&names)), j) } else { format!("{}={}", h(*rng.pick(&names)), h(&format!("c{j}"))) }).collect();
                             format!("l{}:{}:{}", *rng.pick(&["e", "i", "d"]), h(&format!("t{t}-{k}")), tags.join("+"))
                         }
